@@ -405,3 +405,114 @@ pub fn valid_biased(valid: &'static [char], risky: BoxedStrategy<char>) -> Boxed
         .boxed();
     out
 }
+
+// ---------------------------------------------------------------------------------------------
+// Pairs of distinct, equal-length strings that collide under the usual cheap 32-bit string hashes. A memo keyed on
+// (length, hash) instead of on the string itself confuses exactly such pairs when they are processed back to back; a
+// random search meets one with probability ~2^-32 per pair, a birthday search over one string shape finds dozens.
+
+fn h_fnv1a(b: &[u8]) -> u32 { b.iter().fold(0x811c9dc5u32, |h, x| (h ^ *x as u32).wrapping_mul(0x01000193)) }
+fn h_fnv1(b: &[u8]) -> u32 { b.iter().fold(0x811c9dc5u32, |h, x| h.wrapping_mul(0x01000193) ^ *x as u32) }
+fn h_fnv1a64lo(b: &[u8]) -> u32 { b.iter().fold(0xcbf29ce484222325u64, |h, x| (h ^ *x as u64).wrapping_mul(0x100000001b3)) as u32 }
+fn h_djb2(b: &[u8]) -> u32 { b.iter().fold(5381u32, |h, x| h.wrapping_mul(33).wrapping_add(*x as u32)) }
+fn h_djb2x(b: &[u8]) -> u32 { b.iter().fold(5381u32, |h, x| h.wrapping_mul(33) ^ *x as u32) }
+fn h_sdbm(b: &[u8]) -> u32 { b.iter().fold(0u32, |h, x| (*x as u32).wrapping_add(h << 6).wrapping_add(h << 16).wrapping_sub(h)) }
+fn h_java(b: &[u8]) -> u32 { b.iter().fold(0u32, |h, x| h.wrapping_mul(31).wrapping_add(*x as u32)) }
+fn h_sum(b: &[u8]) -> u32 { b.iter().fold(0u32, |h, x| h.wrapping_add(*x as u32)) }
+fn h_xor_rot(b: &[u8]) -> u32 { b.iter().fold(0u32, |h, x| h.rotate_left(5) ^ *x as u32) }
+fn h_adler(b: &[u8]) -> u32 {
+    let (mut a, mut c) = (1u32, 0u32);
+    for x in b {
+        a = (a + *x as u32) % 65521;
+        c = (c + a) % 65521;
+    }
+    (c << 16) | a
+}
+fn h_crc32(b: &[u8]) -> u32 {
+    let mut crc = 0xffff_ffffu32;
+    for x in b {
+        crc ^= *x as u32;
+        for _ in 0..8 {
+            crc = if crc & 1 != 0 { (crc >> 1) ^ 0xedb8_8320 } else { crc >> 1 };
+        }
+    }
+    !crc
+}
+fn h_murmur3(b: &[u8]) -> u32 {
+    let (c1, c2) = (0xcc9e2d51u32, 0x1b873593u32);
+    let mut h = 0u32;
+    let mut chunks = b.chunks_exact(4);
+    for ch in &mut chunks {
+        let mut k = u32::from_le_bytes([ch[0], ch[1], ch[2], ch[3]]);
+        k = k.wrapping_mul(c1).rotate_left(15).wrapping_mul(c2);
+        h = (h ^ k).rotate_left(13).wrapping_mul(5).wrapping_add(0xe6546b64);
+    }
+    let rem = chunks.remainder();
+    let mut k = 0u32;
+    for (i, x) in rem.iter().enumerate() {
+        k |= (*x as u32) << (8 * i);
+    }
+    if !rem.is_empty() {
+        h ^= k.wrapping_mul(c1).rotate_left(15).wrapping_mul(c2);
+    }
+    h ^= b.len() as u32;
+    h ^= h >> 16;
+    h = h.wrapping_mul(0x85ebca6b);
+    h ^= h >> 13;
+    h = h.wrapping_mul(0xc2b2ae35);
+    h ^ (h >> 16)
+}
+
+/// (hash name, a, b): a != b, same byte length, same hash. `shape(n)` builds the n-th candidate.
+pub fn collision_pairs(shape: &(dyn Fn(u32) -> String + Sync), candidates: u32, per_hash: usize) -> Vec<(&'static str, String, String)> {
+    let hashes: [(&'static str, fn(&[u8]) -> u32); 12] = [
+        ("fnv1a32", h_fnv1a), ("fnv1_32", h_fnv1), ("fnv1a64-low32", h_fnv1a64lo), ("djb2", h_djb2), ("djb2-xor", h_djb2x), ("sdbm", h_sdbm), ("java31", h_java),
+        ("byte-sum", h_sum), ("rot5-xor", h_xor_rot), ("adler32", h_adler), ("crc32", h_crc32), ("murmur3-32", h_murmur3),
+    ];
+    let strings: Vec<String> = (0..candidates).map(shape).collect();
+    let mut out = Vec::new();
+    for (name, h) in hashes {
+        let mut seen: std::collections::HashMap<(usize, u32), u32> = std::collections::HashMap::with_capacity(strings.len());
+        let mut found = 0;
+        for (i, s) in strings.iter().enumerate() {
+            match seen.entry((s.len(), h(s.as_bytes()))) {
+                std::collections::hash_map::Entry::Occupied(e) => {
+                    let j = *e.get() as usize;
+                    if strings[j] != *s {
+                        out.push((name, strings[j].clone(), s.clone()));
+                        found += 1;
+                        if found >= per_hash {
+                            break;
+                        }
+                    }
+                }
+                std::collections::hash_map::Entry::Vacant(v) => {
+                    v.insert(i as u32);
+                }
+            }
+        }
+    }
+    out
+}
+
+fn base36(mut n: u32, width: usize) -> String {
+    let mut v = vec![b'0'; width];
+    for i in (0..width).rev() {
+        let d = (n % 36) as u8;
+        v[i] = if d < 10 { b'0' + d } else { b'a' + d - 10 };
+        n /= 36;
+    }
+    String::from_utf8(v).unwrap()
+}
+
+/// colliding pairs for three string shapes: plain nicknames, usernames with a fullwidth character, passwords with a wide space
+pub fn fingerprint_collisions() -> &'static Vec<(&'static str, String, String)> {
+    static C: OnceLock<Vec<(&'static str, String, String)>> = OnceLock::new();
+    C.get_or_init(|| {
+        let mut v = collision_pairs(&|n| format!("Guest {n:06}"), 300_000, 6);
+        v.extend(collision_pairs(&|n| format!("user{}\u{ff20}example", base36(n, 6)), 300_000, 6));
+        v.extend(collision_pairs(&|n| format!("pass\u{3000}{}", base36(n.wrapping_mul(2654435761), 7)), 300_000, 6));
+        v.extend(collision_pairs(&|n| format!("Nick{}\u{c5}", base36(n, 5)), 300_000, 4));
+        v
+    })
+}
